@@ -108,6 +108,11 @@ def figure_event(ctx, plt, workdir, name, fn, kind, seqs=None, coords=None, getf
          "saved": bool(save), "fileok": fileok, "wanttitle": title, "wantlabels": list(labels), "wantxlim": common.fx(xlim), "wantylim": common.fx(ylim),
          "markers": [], "labels": [], "title": "", "xlim": [common.fx(0), common.fx(0)], "ylim": [common.fx(0), common.fx(0)], "polys": [],
          "error": repr(out[1:3]) if out[0] != "ok" else ""}
+    # the region each sequence is assigned by the library itself (0: the call failed or gave something else)
+    e["assigned"] = []
+    for s_ in (seqs or []):
+        r_ = common.call(lambda: STATE["lc"].SP("".join(s_)).get_phasePlotRegion())
+        e["assigned"].append(int(r_[1]) if r_[0] == "ok" and common.is_number(r_[1]) and not isinstance(r_[1], bool) and int(r_[1]) == r_[1] and 1 <= r_[1] <= 5 else 0)
     if rec:
         e.update({"markers": pts(rec["markers"]), "labels": rec["labels"], "title": rec["title"],
                   "xlim": [common.fx(v) for v in rec["xlim"]], "ylim": [common.fx(v) for v in rec["ylim"]],
@@ -144,6 +149,7 @@ def scaled_polys(polys):
 
 def run(ctx):
     lc = common.load_repo(ctx.repo)
+    STATE["lc"] = lc
     plt = mpl()
     workdir = os.path.join(ctx.work, "figs")
     os.makedirs(workdir, exist_ok=True)
@@ -188,6 +194,11 @@ def run(ctx):
     rng = ctx.rng
     trs = []
     seqs = common.random_sequences(rng, ctx.pick(14, 80), 60, 3) + ["K", "E", "KE", "GK", "SY", "KEG"]
+    # compositions right next to the region boundaries (lengths at which FCR or |NCPR| comes within 1e-4 of 0.25 / 0.35)
+    for N, p, n in ((1017, 356, 0), (1017, 178, 178), (1003, 451, 100), (1003, 100, 451), (5001, 1250, 0), (1000, 350, 0), (1000, 250, 0), (1000, 351, 0), (2000, 699, 1)):
+        x = [1] * p + [-1] * n + [0] * (N - p - n)
+        rng.shuffle(x)
+        seqs.append(common.spell(x, rng))
     P = lc.plots
     for i, s in enumerate(seqs):
         o = lc.SP(s)
@@ -253,7 +264,7 @@ def run(ctx):
                                "uversky", seqs=group, save=True, title=title, labels=want, xlim=xl, ylim=yl))
         # linear profiles
         w = rng.randint(1, len(s))
-        for stat, nm in STATS.items():
+        for stat, nm in (STATS.items() if len(s) <= 300 else []):
             ev.append(bars_event(ctx, plt, workdir, "SP.show_" + nm, lambda: getattr(o, "show_" + nm)(w, True), s, stat, w, False))
             if rng.random() < 0.4:
                 ev.append(bars_event(ctx, plt, workdir, "SP.save_" + nm, lambda: getattr(o, "save_" + nm)(fn, w), s, stat, w, True))
